@@ -1,6 +1,7 @@
 package props
 
 import (
+	"go/types"
 	"fmt"
 	"go/token"
 	"os"
@@ -324,32 +325,29 @@ func c13SpanWidth(c *core.Check) {
 			if !ok || mul.Op != token.MUL {
 				return
 			}
-			isSpacing := func(v ssa.Value) bool {
-				ld, ok := v.(*ssa.UnOp)
-				if !ok {
-					return false
+			// the factor (n − 1) converted to float, whatever the other operand is called
+			spanMinusOne := func(v ssa.Value) *ssa.BinOp {
+				for {
+					if cv, ok := v.(*ssa.Convert); ok {
+						v = cv.X
+						continue
+					}
+					break
 				}
-				fv, ok := ld.X.(*ssa.FreeVar)
-				return ok && fv.Name() == "borderSpacingX"
-			}
-			var other ssa.Value
-			switch {
-			case isSpacing(mul.X):
-				other = mul.Y
-			case isSpacing(mul.Y):
-				other = mul.X
-			default:
-				return
-			}
-			for {
-				if cv, ok := other.(*ssa.Convert); ok {
-					other = cv.X
-					continue
+				sub, ok := v.(*ssa.BinOp)
+				if !ok || sub.Op != token.SUB {
+					return nil
 				}
-				break
+				if bt, isB := sub.X.Type().Underlying().(*types.Basic); !isB || bt.Info()&types.IsInteger == 0 {
+					return nil
+				}
+				return sub
 			}
-			sub, ok := other.(*ssa.BinOp)
-			if !ok || sub.Op != token.SUB {
+			sub := spanMinusOne(mul.Y)
+			if sub == nil {
+				sub = spanMinusOne(mul.X)
+			}
+			if sub == nil {
 				return
 			}
 			if k, isK := core.ConstInt(sub.Y); !isK || k != 1 {
